@@ -393,6 +393,28 @@ theorem C06_select_random_spec {sp : Space} (hsp : SpaceOK sp) {s : State} (h : 
   · obtain ⟨x, _, hx⟩ := pick_cons hne d ds; exact ⟨x, hx⟩
   · obtain ⟨x, _, hx⟩ := pick_cons hne d ds; exact ⟨x, hx⟩
 
+/-- `cell.empty` on a space that is not a grid (`Network`, `VoronoiGrid`: no property layer, a plain instance attribute
+    written by `add_agent` / `remove_agent`): after any history it either does not exist yet — then the cell has never been
+    entered and is empty — or holds `is_empty`. -/
+theorem C06_cell_empty_attribute {sp : Space} (hsp : SpaceOK sp) {s : State} (h : Reachable sp s) (c : Cid) :
+    (s.flag c = none → sp.isGrid = false ∧ s.occ c = []) ∧
+    (∀ b, s.flag c = some b → b = isEmpty s c) := by
+  have hi := reachable_inv hsp h
+  rcases hi.flag c with h1 | ⟨h1, h2, h3⟩
+  · constructor
+    · intro hn
+      rw [h1] at hn
+      exact absurd hn (by simp)
+    · intro b hb
+      rw [h1] at hb
+      simpa [isEmpty] using hb.symm
+  · constructor
+    · intro _
+      exact ⟨h1, h3⟩
+    · intro b hb
+      rw [h2] at hb
+      exact absurd hb (by simp)
+
 /-! ### exact outcomes (what a placing call does, and exactly when it is refused) -/
 
 /-- `a.cell = space[c]` (= `a.move_to(space[c])`) for a CellAgent / Grid2DMovingAgent, after any history, for any cell of the
@@ -728,6 +750,11 @@ example : (step z (run z (init z) zops) (.setCell 1 (some [0, 1]))).2 = .err .fi
 -- emptying the cell that lists a CellAgent, a FixedAgent and another CellAgent: all three leave the cell and the model
 example : (clearCell z (run z (init z) zops) [0, 0]).2 = .ok ∧ (clearCell z (run z (init z) zops) [0, 0]).1.occ [0, 0] = [] ∧
     (run z (init z) zops).registry = [0, 1, 2] ∧ (clearCell z (run z (init z) zops) [0, 0]).1.registry = [] := by decide
+-- `cell.empty` on a Network: absent before the first `add_agent`, then `is_empty` (False while occupied, True after leaving)
+private def nw : Space := netSpace false 2 [(0, 1)] none
+example : (init nw).flag [0] = none ∧ (run nw (init nw) [.new .cell, .setCell 0 (some [0])]).flag [0] = some false ∧
+    (run nw (init nw) [.new .cell, .setCell 0 (some [0]), .setCell 0 (some [1])]).flag [0] = some true ∧
+    (run nw (init nw) [.new .cell, .setCell 0 (some [0]), .setCell 0 (some [1])]).flag [1] = some false := by decide
 -- rejection sampling: the draws 0, 3, 1 name (0,0), (1,1) — both occupied — and (0,1), which is returned; the list strategy
 -- returns the `d % 2`-th of the two empty cells; with every cell occupied it raises IndexError without a draw
 example : drawn sp0.cells [0, 3, 1] = [[0, 0], [1, 1], [0, 1]] ∧ (step sp0 s0 (.randEmpty [0, 3, 1])).2 = .okCell [0, 1] ∧
